@@ -152,7 +152,7 @@ fn inv(st: St, size: u64) -> bool {
     }
 }
 
-const MAXN: usize = 4;
+const MAXN: usize = 8;
 
 fn buf_of(bytes: &[u8; MAXN], n: usize) -> BytesMut {
     BytesMut::from(&bytes[..n])
@@ -370,6 +370,9 @@ fn eof_lemma(n: usize) {
 }
 
 // ---------------------------------------------------------------------------------------------
+// O-5 bounded whole run — NOT REGISTERED: none of the instances (2-3 symbolic bytes, one cut) finished in
+// 50 minutes even with the tracing stub (the decoder state after the first loop iteration is symbolic).
+// The function is kept for reference.
 // O-5 bounded whole run (cross-check of the composition argument): from the initial chunked decoder,
 // N symbolic bytes delivered whole vs. cut at a symbolic position: same events, same final state,
 // same leftover.  Events are folded into (total data length, checksum of data positions, eof, err).
@@ -725,24 +728,6 @@ fn c01_length_and_eof_b4() {
     length_lemma(4);
     eof_lemma(4);
 }
-#[kani::proof]
-#[kani::stub(tracing::callsite::DefaultCallsite::register, stub_tracing_register)]
-#[kani::unwind(7)]
-fn c01_whole_run_b2_cut1_t() {
-    whole_run(2, 1);
-}
-#[kani::proof]
-#[kani::stub(tracing::callsite::DefaultCallsite::register, stub_tracing_register)]
-#[kani::unwind(7)]
-fn c01_whole_run_b3_cut1_t() {
-    whole_run(3, 1);
-}
-#[kani::proof]
-#[kani::stub(tracing::callsite::DefaultCallsite::register, stub_tracing_register)]
-#[kani::unwind(7)]
-fn c01_whole_run_b3_cut2_t() {
-    whole_run(3, 2);
-}
 
 #[kani::proof]
 #[kani::stub(tracing::callsite::DefaultCallsite::register, stub_tracing_register)]
@@ -767,6 +752,80 @@ fn c01_reject_with_tail_body_end() {
     reject_with_tail(St::EndCr, b'\n', None, 4);
     reject_with_tail(St::EndCr, b'T', None, 6);
     reject_with_tail(St::EndLf, b'\r', None, 4);
+}
+
+#[kani::proof]
+#[kani::stub(tracing::callsite::DefaultCallsite::register, stub_tracing_register)]
+#[kani::unwind(11)]
+fn c01_step_size_line_b6_t() {
+    step_lemma(St::Size, 6);
+    step_lemma(St::SizeLws, 6);
+    step_lemma(St::Extension, 6);
+    step_lemma(St::SizeLf, 6);
+}
+#[kani::proof]
+#[kani::stub(tracing::callsite::DefaultCallsite::register, stub_tracing_register)]
+#[kani::unwind(11)]
+fn c01_step_body_b6_t() {
+    step_lemma(St::Body, 6);
+    step_lemma(St::BodyCr, 6);
+    step_lemma(St::BodyLf, 6);
+}
+#[kani::proof]
+#[kani::stub(tracing::callsite::DefaultCallsite::register, stub_tracing_register)]
+#[kani::unwind(11)]
+fn c01_step_end_b6_t() {
+    step_lemma(St::EndCr, 6);
+    step_lemma(St::EndLf, 6);
+    step_lemma(St::End, 6);
+}
+#[kani::proof]
+#[kani::stub(tracing::callsite::DefaultCallsite::register, stub_tracing_register)]
+#[kani::unwind(11)]
+fn c01_length_and_eof_b6_t() {
+    length_lemma(6);
+    eof_lemma(6);
+}
+#[kani::proof]
+#[kani::stub(tracing::callsite::DefaultCallsite::register, stub_tracing_register)]
+#[kani::unwind(11)]
+fn c01_step_size_line_b8_t() {
+    step_lemma(St::Size, 8);
+    step_lemma(St::SizeLws, 8);
+    step_lemma(St::Extension, 8);
+    step_lemma(St::SizeLf, 8);
+}
+#[kani::proof]
+#[kani::stub(tracing::callsite::DefaultCallsite::register, stub_tracing_register)]
+#[kani::unwind(11)]
+fn c01_step_body_b8_t() {
+    step_lemma(St::Body, 8);
+    step_lemma(St::BodyCr, 8);
+    step_lemma(St::BodyLf, 8);
+}
+#[kani::proof]
+#[kani::stub(tracing::callsite::DefaultCallsite::register, stub_tracing_register)]
+#[kani::unwind(11)]
+fn c01_step_end_b8_t() {
+    step_lemma(St::EndCr, 8);
+    step_lemma(St::EndLf, 8);
+    step_lemma(St::End, 8);
+}
+#[kani::proof]
+#[kani::stub(tracing::callsite::DefaultCallsite::register, stub_tracing_register)]
+#[kani::unwind(11)]
+fn c01_length_and_eof_b8_t() {
+    length_lemma(8);
+    eof_lemma(8);
+}
+#[kani::proof]
+#[kani::stub(tracing::callsite::DefaultCallsite::register, stub_tracing_register)]
+#[kani::unwind(11)]
+fn c01_reject_with_tail_long_t() {
+    reject_with_tail(St::Size, b'+', Some(0), 7);
+    reject_with_tail(St::SizeLws, b'0', None, 7);
+    reject_with_tail(St::BodyCr, b'\n', None, 7);
+    reject_with_tail(St::EndLf, b'G', None, 7);
 }
 
 #[cfg(test)]
